@@ -37,7 +37,8 @@ PATTERNS = [
 TARGETS = ["notes.zo", "20240304.zo", "work_log.zo", "sub/new/deep.zo", "noext", "other.zo", "20241399.zo",
            "20240131.zo", "20240430.zo", "20240229.zo", "_log.zo"]
 VARMAPS = [{}, {"name": "given"}, {"date": "20240102"}, {"date": "20241231"},
-           {"name": "R&D <a> 'q' \"dq\" {x}"}]  # a value is written as it is, whatever characters it has
+           {"name": "R&D <a> 'q' \"dq\" {x}"},  # a value is written as it is, whatever characters it has
+           {"lead": "## inbox"}]                  # ... also when it looks like the header marker of a template line
 
 
 def template_text(i) -> str:
@@ -49,6 +50,7 @@ def template_text(i) -> str:
         f"## Page from T{i} for {{{{ name | default('nobody') }}}}\n##\n## ^ = [[parent]]\n\n"
         f"{{% if date %}}- dated {{{{ date.strftime('%Y-%m-%d') }}}}{{% endif %}}\n"
         f"- body of T{i} ## not a header\n"
+        f"{{{{ lead | default('- 240105#LD a line that') }}}} starts with a variable\n"
     )
 
 
